@@ -297,10 +297,16 @@ type c13Item struct {
 	a *c13AScn
 	b *c13BItem
 	c *c13CItem
+	e *c13EScn
 }
 
 func c13Items(rec *vcommon.Rec, part string, race bool) []c13Item {
-	var as, bs, cs []c13Item
+	var as, bs, cs, es []c13Item
+	if strings.Contains(part, "e") {
+		for _, sc := range c13EScenarios(rec) {
+			es = append(es, c13Item{e: sc})
+		}
+	}
 	if strings.Contains(part, "a") {
 		for _, sc := range c13AScenarios(rec, race) {
 			as = append(as, c13Item{a: sc})
@@ -326,7 +332,10 @@ func c13Items(rec *vcommon.Rec, part string, race bool) []c13Item {
 		}
 	}
 	var out []c13Item
-	for i := 0; i < len(as) || i < len(bs) || i < len(cs); i++ {
+	for i := 0; i < len(as) || i < len(bs) || i < len(cs) || i < len(es); i++ {
+		if i < len(es) {
+			out = append(out, es[i])
+		}
 		if i < len(as) {
 			out = append(out, as[i])
 		}
@@ -372,6 +381,10 @@ func TestVerifC13(t *testing.T) {
 			c13RunC(rec, &it)
 		case "d":
 			c13RunD(rec)
+		case "e":
+			var sc c13EScn
+			json.Unmarshal(rec.Replay, &sc)
+			c13RunE(rec, &sc)
 		default:
 			t.Fatalf("replay descriptor without a part: %s", rec.Replay)
 		}
@@ -392,6 +405,8 @@ func TestVerifC13(t *testing.T) {
 			c13RunB(rec, it.b)
 		case it.c != nil:
 			c13RunC(rec, it.c)
+		case it.e != nil:
+			c13RunE(rec, it.e)
 		}
 	}
 }
